@@ -9,8 +9,8 @@ import Hive.Proofs.TimedInvStep
   identifier without registration has nothing pending;
 * while a goroutine is between the two halves of `ExecuteAt(id)` it holds the map's mutex and
   `id` has no registration (`lk`, `lkc`);
-* without size bound and before Shutdown, a registered element with an open channel is live: in
-  the heap, held by a poller, or delivered and about to start (`f`);
+* a registered element with an open cancel channel is live: in the heap, held by a poller, or
+  delivered and about to start (`f`) — the queue closes the channel of everything it drops;
 * the context is cancelled only after the queue was marked shut down (`sdinv`, `sdpc`).
 -/
 namespace Hive.Timed
@@ -52,7 +52,7 @@ structure Inv2 (s : Sh) (ts : List Th) : Prop where
   e2 : ∀ t ∈ ts, ∀ e, t.held = some e → Reg s e
   lk : ∀ t ∈ ts, ∀ i, t.pend = some i → regGet s.reg i = none
   lkc : tsum execPc ts = if s.regLocked then 1 else 0
-  f : s.maxSize = 0 → s.isShutdown = false → ∀ i x, regGet s.reg i = some x → x ∉ s.closed → 1 ≤ lv x s ts
+  f : ∀ i x, regGet s.reg i = some x → x ∉ s.closed → 1 ≤ lv x s ts
   sdinv : s.ctxDone = true → s.isShutdown = true
   sdpc : ∀ t ∈ ts, t.sdPend = true → s.isShutdown = true
 
@@ -92,9 +92,9 @@ theorem inv2_fields {s s' : Sh} {ts : List Th} (h : Inv2 s ts) (hh : s'.heap = s
   · intro t ht e hte; exact hreg e (h.e2 t ht e hte)
   · intro t ht i hp; rw [hr]; exact h.lk t ht i hp
   · rw [hlk]; exact h.lkc
-  · intro h0 h1 i x hx hnc
-    rw [hm] at h0; rw [hsd] at h1; rw [hr] at hx; rw [hcl] at hnc
-    have := h.f h0 h1 i x hx hnc
+  · intro i x hx hnc
+    rw [hr] at hx; rw [hcl] at hnc
+    have := h.f i x hx hnc
     simpa [lv, hh] using this
   · intro hc; rw [hcx] at hc; rw [hsd]; exact h.sdinv hc
   · intro t ht hp; rw [hsd]; exact h.sdpc t ht hp
@@ -103,7 +103,7 @@ theorem inv2_fields {s s' : Sh} {ts : List Th} (h : Inv2 s ts) (hh : s'.heap = s
 theorem inv2_move {s : Sh} {l r : List Th} {t t' : Th} (h : Inv2 s (l ++ t :: r))
     (hheld : ∀ e, t'.held = some e → t.held = some e) (hpend : t'.pend = t.pend)
     (hsd : t'.sdPend = true → t.sdPend = true ∨ s.isShutdown = true)
-    (hlv : s.maxSize = 0 → s.isShutdown = false → ∀ i x, regGet s.reg i = some x → x ∉ s.closed →
+    (hlv : ∀ i x, regGet s.reg i = some x → x ∉ s.closed →
       pre x t + wr x t ≤ pre x t' + wr x t') : Inv2 s (l ++ t' :: r) := by
   constructor
   · exact h.e1
@@ -116,9 +116,9 @@ theorem inv2_move {s : Sh} {l r : List Th} {t t' : Th} (h : Inv2 s (l ++ t :: r)
   · have := h.lkc
     simp only [tsum_mid, execPc, hpend] at *
     exact this
-  · intro h0 h1 i x hx hnc
-    have h2 := h.f h0 h1 i x hx hnc
-    have h3 := hlv h0 h1 i x hx hnc
+  · intro i x hx hnc
+    have h2 := h.f i x hx hnc
+    have h3 := hlv i x hx hnc
     rw [lv_mid] at *
     omega
   · exact h.sdinv
@@ -200,9 +200,9 @@ theorem inv2_pop {s s' : Sh} {l r : List Th} {e : Elem} {h' : List Elem} {t' : T
     have e1 : execPc t' = 0 := by simp [execPc, hpend]
     simp only [tsum_mid, e0, e1] at *
     exact this
-  · intro h0 h1 i x hx hnc
-    rw [hm] at h0; rw [hsd] at h1; rw [hr] at hx; rw [hcl] at hnc
-    have h2 := h.f h0 h1 i x hx hnc
+  · intro i x hx hnc
+    rw [hr] at hx; rw [hcl] at hnc
+    have h2 := h.f i x hx hnc
     rw [lv_mid] at *
     rw [hc_perm hperm, hc_cons] at h2
     have h3 := hpre x
@@ -252,12 +252,12 @@ theorem inv2_run {s s' : Sh} {l r : List Th} {e : Elem} {i : Nat} (hI : Inv s (l
     rw [hlk]
     simp only [tsum_mid, execPc, Th.pend] at *
     exact this
-  · intro h0 h1 j x hx hnc
-    rw [hm] at h0; rw [hsd] at h1; rw [hr] at hx; rw [hcl] at hnc
+  · intro j x hx hnc
+    rw [hr] at hx; rw [hcl] at hnc
     obtain ⟨hji, hx'⟩ := regGet_regDel_some hx
     have hxe : e.serial ≠ x := by
       rintro rfl; exact hji (hI.r_inj j i _ hx' hg)
-    have h2 := h.f h0 h1 j x hx' hnc
+    have h2 := h.f j x hx' hnc
     rw [lv_mid] at *
     rw [hh]
     simp only [pre, wr, hxe, if_false] at *
@@ -322,11 +322,10 @@ theorem inv2_cancel {s s' : Sh} {ts : List Th} (hI : Inv s ts) (h : Inv2 s ts) (
       · subst hki; simp
       · simp only; rw [regGet_regDel_ne _ hki]; exact h1
   · rw [hlk]; exact h.lkc
-  · intro h0 h1 j y hy hnc
-    rw [hm] at h0; rw [hsd] at h1
+  · intro j y hy hnc
     obtain ⟨hy', hne⟩ := hreg' j y hy
     have hnc' : y ∉ s.closed := fun hc => hnc ((hcl _).mpr (Or.inr hc))
-    have h2 := h.f h0 h1 j y hy' hnc'
+    have h2 := h.f j y hy' hnc'
     unfold lv at *
     rw [hh, cancelElem_hc_ne s (hne hnc)]
     exact h2
@@ -360,9 +359,9 @@ theorem inv2_lockmove {s s' : Sh} {l r : List Th} {t t' : Th} {i : Nat} (h : Inv
     have e1 : execPc t' = 1 := by simp [execPc, hp']
     simp only [tsum_mid, e0, e1, Bool.false_eq_true, if_false, if_true] at *
     omega
-  · intro h0 h1 j y hy hnc
-    rw [hm] at h0; rw [hsd] at h1; rw [hr] at hy; rw [hcl] at hnc
-    have h2 := h.f h0 h1 j y hy hnc
+  · intro j y hy hnc
+    rw [hr] at hy; rw [hcl] at hnc
+    have h2 := h.f j y hy hnc
     rw [lv_mid] at *
     rw [hh]; have := hz y; omega
   · intro hc; rw [hcx] at hc; rw [hsd]; exact h.sdinv hc
@@ -416,9 +415,9 @@ theorem inv2_unlockmove {s s' : Sh} {l r : List Th} {t t' : Th} {i : Nat} (h : I
   · rw [hlk]
     simp only [tsum_mid, e1', Bool.false_eq_true, if_false]
     omega
-  · intro h0 h1 j y hy hnc
-    rw [hm] at h0; rw [hsd] at h1; rw [hr] at hy; rw [hcl] at hnc
-    have h2 := h.f h0 h1 j y hy hnc
+  · intro j y hy hnc
+    rw [hr] at hy; rw [hcl] at hnc
+    have h2 := h.f j y hy hnc
     rw [lv_mid] at *
     rw [hh]; have := hz y; omega
   · intro hc; rw [hcx] at hc; rw [hsd]; exact h.sdinv hc
@@ -431,35 +430,43 @@ theorem inv2_unlockmove {s s' : Sh} {l r : List Th} {t t' : Th} {i : Nat} (h : I
 theorem inv2_add {s s' : Sh} {ts : List Th} (hI : Inv s ts) (h : Inv2 s ts) (due : Nat) (id : Option Nat)
     (kind : Kind) (tag : Nat) (hul : ∀ i, id = some i → s.regLocked = false)
     (hnone : ∀ i, id = some i → regGet s.reg i = none)
-    (hh : s'.heap = (add s due id kind tag).1.heap) (hcl : s'.closed = s.closed)
+    (hh : s'.heap = (add s due id kind tag).1.heap) (hcl : s'.closed = (add s due id kind tag).1.closed)
     (hr : s'.reg = match (add s due id kind tag).2 with
                    | .ok x => regAfter s.reg id x
                    | _ => s.reg)
     (hlk : s'.regLocked = s.regLocked) (hsd : s'.isShutdown = s.isShutdown) (hcx : s'.ctxDone = s.ctxDone)
     (hm : s'.maxSize = s.maxSize) : Inv2 s' ts := by
-  rcases add_cases s due id kind tag with ⟨_, h1, hno⟩ | ⟨hns, hok, h2, new, h1, hcase⟩
-  · rw [h1] at hh
+  rcases add_cases s due id kind tag with ⟨_, h1, hno⟩ | ⟨hns, hok, h2, new, cl, h1, hcase⟩
+  · rw [h1] at hh hcl
     have hr' : s'.reg = s.reg := by
       rw [hr]; cases hres : (add s due id kind tag).2 with
       | ok x => exact absurd hres (hno x)
       | nil => rfl
       | panic => rfl
     exact inv2_fields h hh hcl hr' hlk hsd hcx hm
-  · rw [h1] at hh
+  · rw [h1] at hh hcl
     rw [hok] at hr
-    simp only [signal_heap] at hh
-    -- the heap afterwards: inside `e :: heap`, and exactly that when there is no bound
+    simp only [signal_heap, signal_closed] at hh hcl
+    have hclsub : ∀ y ∈ s.closed, y ∈ s'.closed := by
+      intro y hy; rw [hcl]
+      rcases hcase with ⟨_, rfl, _⟩ | ⟨d, _, rfl, _, _⟩
+      · exact hy
+      · exact List.mem_cons_of_mem _ hy
+    -- the heap afterwards: inside `e :: heap`; an element that is missing has its channel closed
     have hsub : HSub s'.heap (newElem s due id kind tag :: s.heap) := by
       rw [hh]
-      rcases hcase with ⟨_, hp⟩ | ⟨d, _, hp, _⟩
+      rcases hcase with ⟨_, _, hp⟩ | ⟨d, _, _, hp, _⟩
       · intro p; rw [hp.countP_eq]; exact Nat.le_refl _
       · exact HSub.of_perm_cons hp
-    have hfull : s.maxSize = 0 → ∀ y, hc y s'.heap = hc y (newElem s due id kind tag :: s.heap) := by
-      intro h0 y
+    have hfull : ∀ y, y ∉ s'.closed → hc y s'.heap = hc y (newElem s due id kind tag :: s.heap) := by
+      intro y hy
       rw [hh]
-      rcases hcase with ⟨_, hp⟩ | ⟨d, _, _, hpos⟩
+      rcases hcase with ⟨_, _, hp⟩ | ⟨d, _, rfl, hp, _⟩
       · exact hc_perm hp
-      · omega
+      · rw [hc_perm hp, hc_cons]
+        have : ¬ d.serial = y := by
+          rintro rfl; exact hy (by rw [hcl]; exact List.mem_cons_self)
+        simp [this]
     have hregget : ∀ j y, regGet s'.reg j = some y → (id = some j ∧ y = s.next) ∨ regGet s.reg j = some y := by
       intro j y hy
       rw [hr] at hy
@@ -472,8 +479,8 @@ theorem inv2_add {s s' : Sh} {ts : List Th} (hI : Inv s ts) (h : Inv2 s ts) (due
         · simp only [regGet_regSet_ne _ _ hji] at hy; exact Or.inr hy
     have hregold : ∀ a, Reg s a → Reg s' a := by
       intro a ha j hj hnc
-      rw [hcl] at hnc
-      have h3 := ha j hj hnc
+      have hnc' : a.serial ∉ s.closed := fun hc => hnc (hclsub _ hc)
+      have h3 := ha j hj hnc'
       rw [hr]
       unfold regAfter
       cases id with
@@ -503,51 +510,57 @@ theorem inv2_add {s s' : Sh} {ts : List Th} (hI : Inv s ts) (h : Inv2 s ts) (due
         have := no_pend_of_unlocked h (hul i hid) t ht
         rw [this] at hk; cases hk
     · rw [hlk]; exact h.lkc
-    · intro h0 h3 j y hy hnc
-      rw [hm] at h0; rw [hsd] at h3; rw [hcl] at hnc
+    · intro j y hy hnc
       unfold lv
-      rw [hfull h0 y, hc_cons]
+      rw [hfull y hnc, hc_cons]
       rcases hregget j y hy with ⟨_, rfl⟩ | hy'
       · simp [newElem]; omega
-      · have := h.f h0 h3 j y hy' hnc
+      · have := h.f j y hy' (fun hc => hnc (hclsub _ hc))
         unfold lv at this
         omega
     · intro hc; rw [hcx] at hc; rw [hsd]; exact h.sdinv hc
     · intro t ht hp; rw [hsd]; exact h.sdpc t ht hp
 
-/-- Effects that happen only once the queue is (being) shut down: elements may leave the heap. -/
-theorem inv2_shut {s s' : Sh} {ts : List Th} (h : Inv2 s ts) (hh : HSub s'.heap s.heap) (hcl : s'.closed = s.closed)
+/-- Effects that happen only once the queue is (being) shut down: elements may leave the heap, with their
+cancel channels closed. -/
+theorem inv2_shut {s s' : Sh} {ts : List Th} (h : Inv2 s ts) (hh : HSub s'.heap s.heap)
+    (hcl : ∀ y ∈ s.closed, y ∈ s'.closed) (hdrop : ∀ y, y ∉ s'.closed → hc y s'.heap = hc y s.heap)
     (hr : s'.reg = s.reg) (hlk : s'.regLocked = s.regLocked) (hsd : s'.isShutdown = true)
     (hm : s'.maxSize = s.maxSize) : Inv2 s' ts := by
   have hreg : ∀ a, Reg s a → Reg s' a := fun a ha =>
-    ha.mono (by rw [hcl]; exact fun _ hy => hy) (by intro i _ _; rw [hr])
+    ha.mono hcl (by intro i _ _; rw [hr])
   constructor
   · intro a ha; exact hreg a (h.e1 a (hh.mem ha))
   · intro t ht a hta; exact hreg a (h.e2 t ht a hta)
   · intro t ht i hp; rw [hr]; exact h.lk t ht i hp
   · rw [hlk]; exact h.lkc
-  · intro _ h1; rw [hsd] at h1; cases h1
+  · intro i x hx hnc
+    rw [hr] at hx
+    have := h.f i x hx (fun hc => hnc (hcl _ hc))
+    unfold lv at *
+    rw [hdrop x hnc]; exact this
   · intro _; exact hsd
   · intro _ _ _; exact hsd
 
 /-- `add` does not look at the mutex of the identifier map. -/
 theorem add_unlock (s : Sh) (b : Bool) (due : Nat) (id : Option Nat) (kind : Kind) (tag : Nat) :
     (add { s with regLocked := b } due id kind tag).1.heap = (add s due id kind tag).1.heap ∧
+    (add { s with regLocked := b } due id kind tag).1.closed = (add s due id kind tag).1.closed ∧
     (add { s with regLocked := b } due id kind tag).2 = (add s due id kind tag).2 := by
   unfold add
   simp only
   split
-  · exact ⟨rfl, rfl⟩
+  · exact ⟨rfl, rfl, rfl⟩
   · split
-    · split <;> simp [signal_heap]
-    · simp [signal_heap]
+    · split <;> simp [signal_heap, signal_closed]
+    · simp [signal_heap, signal_closed]
 
 theorem add_fields (s : Sh) (due : Nat) (id : Option Nat) (kind : Kind) (tag : Nat) :
-    (add s due id kind tag).1.closed = s.closed ∧ (add s due id kind tag).1.isShutdown = s.isShutdown ∧
+    (add s due id kind tag).1.isShutdown = s.isShutdown ∧
     (add s due id kind tag).1.ctxDone = s.ctxDone ∧ (add s due id kind tag).1.maxSize = s.maxSize ∧
     (add s due id kind tag).1.regLocked = s.regLocked := by
-  rcases add_cases s due id kind tag with ⟨_, h1, _⟩ | ⟨_, _, h2, new, h1, _⟩
-  · rw [h1]; exact ⟨rfl, rfl, rfl, rfl, rfl⟩
+  rcases add_cases s due id kind tag with ⟨_, h1, _⟩ | ⟨_, _, h2, new, cl, h1, _⟩
+  · rw [h1]; exact ⟨rfl, rfl, rfl, rfl⟩
   · rw [h1]; simp
 
 end Hive.Timed
